@@ -34,7 +34,7 @@ FLOORS = {"quick": {"demux_packets": 8000, "fib_empty_table_cases": 150, "defaul
                        "hub_with_ports": 4000, "hub_without_ports": 4000, "splitter_packets": 16000, "fattree_built": 6000,
                        "fib_walks": 160000, "reverse_walks": 40000, "e2e_packets": 160000, "e2e_hops": 1000000,
                        "e2e_shared_class_runs": 2000, "e2e_SP": 600, "e2e_WFQ": 600, "e2e_DRR": 600, "e2e_VirtualClock": 600}}
-KEYS = tuple(FLOORS["quick"].keys()) + ("demux_reconfigurations", "splitter_rewriting_receivers", "fattree_twin_trees", "fib_tables_with_default_route", "hub_synchronous_answers")
+KEYS = tuple(FLOORS["quick"].keys()) + ("demux_reconfigurations", "splitter_rewriting_receivers", "fattree_twin_trees", "fib_tables_with_default_route", "hub_synchronous_answers", "hub_endpoints_renamed_after_attach")
 # floors for the situations added with the later rounds of seeded changes (evidence that they were really exercised)
 FLOORS["quick"].update({'fib_tables_with_default_route': 70, 'hub_synchronous_answers': 200})
 FLOORS["thorough"].update({'fib_tables_with_default_route': 350, 'hub_synchronous_answers': 1000})
@@ -277,6 +277,11 @@ def hub_case(rng, stats, bad):
         if e.out is not hub:
             bad("hub-endpoint-not-attached", "an endpoint's out is not the hub", e.element_id)
             return False
+    if rng.random() < 0.3:
+        # the segment is wired first and the stations are named afterwards: the sender is whoever carries the id NOW
+        for k in rng.sample(range(n), rng.randint(1, n)):
+            eps[k].element_id = f"station-{k}"
+        stats["hub_endpoints_renamed_after_attach"] += 1
     for i in range(rng.randint(1, 6)):
         src = rng.choice(eps + [Dev("stranger")])
         p = mkpkt(1, src=src.element_id, pid=i)
@@ -333,13 +338,28 @@ class Rewriter(Dev):
         p.src = self.element_id
 
 
+def make_sink_rewriter(name):
+    """the same rewriting receiver, but a subclass of the library's PacketSink (a monitoring tap that relabels what it records)"""
+    from onl.packet import PacketSink
+    from onl.sim import Environment
+
+    class SinkRewriter(PacketSink, Rewriter):
+        def __init__(self, name):
+            PacketSink.__init__(self, Environment())
+            Rewriter.__init__(self, name)
+
+        def put(self, p):
+            Rewriter.put(self, p)
+    return SinkRewriter(name)
+
+
 def splitter_case(rng, stats, bad):
     from onl.netdev import Splitter, NSplitter
     n = rng.randint(2, 5)
     outs = [Dev(f"o{i}") if rng.random() < 0.85 else None for i in range(n)]
     for i in range(1, n):
         if outs[i] is not None and rng.random() < 0.4:
-            outs[i] = Rewriter(f"rw{i}")
+            outs[i] = Rewriter(f"rw{i}") if rng.random() < 0.6 else make_sink_rewriter(f"rws{i}")
             stats["splitter_rewriting_receivers"] += 1
     if n == 2 and rng.random() < 0.5:
         sp = Splitter()
